@@ -5,8 +5,11 @@ import sys
 import time
 
 VERIF = os.path.dirname(os.path.dirname(os.path.abspath(__file__)))
-OUT = os.path.join(VERIF, "out")
-EVID = os.path.join(VERIF, "evidence")
+# (VERIF_SCRATCH_OUT redirects evidence + replays: used only when the checks are exercised
+#  against seeded changes in scratch worktrees, never by the registered commands)
+_alt = os.environ.get("VERIF_SCRATCH_OUT")
+OUT = os.path.join(_alt, "out") if _alt else os.path.join(VERIF, "out")
+EVID = os.path.join(_alt, "evidence") if _alt else os.path.join(VERIF, "evidence")
 KNOWN = os.path.join(VERIF, "known_findings.json")
 
 
